@@ -132,6 +132,17 @@ def main(run):
     quick = run.tier == "quick"
     nbase = 24 if quick else 400
     ok = run.proof("Props/C09.v", extra_targets=["Core/Typing.vo"])
+    # corpus of minimised past failures: program + expected stdout
+    cdir = os.path.join(common.VERIF, "corpus", "C09")
+    for fn in sorted(os.listdir(cdir)) if os.path.isdir(cdir) else []:
+        if not fn.endswith(".fer"): continue
+        src = open(os.path.join(cdir, fn)).read()
+        exp = open(os.path.join(cdir, fn[:-4] + ".expected")).read()
+        r = common.compile_and_run(src, work, "corpus_" + fn[:-4])
+        run.case(src, True)
+        if not (r.get("accepted") and r.get("rc") == 0 and r.get("out") == exp):
+            run.violation("corpus:" + fn, "corpus program %s: early-evaluated and run-time evaluated forms disagree (or it no longer compiles)" % fn,
+                          {"program": src, "expected_stdout": exp, "stdout": r.get("out"), "compiler": (r.get("cerr") or "")[-500:]})
     bases = []
     for i in range(nbase):
         g = core.Gen(run.rng, max_stmts=20, max_depth=3)
